@@ -75,6 +75,10 @@ func newAnyWriterDict(dst io.Writer, s PSetting, dict []byte) (anyWriter, error)
 	switch s.Pkg {
 	case "gzip":
 		w, err := fgzip.NewWriterLevel(dst, s.Level)
+		if s.Level == -1 {
+			// the default level through the constructor most programs call
+			w, err = fgzip.NewWriter(dst), nil
+		}
 		if err != nil {
 			return nil, err
 		}
@@ -83,6 +87,9 @@ func newAnyWriterDict(dst io.Writer, s PSetting, dict []byte) (anyWriter, error)
 		}
 		return w, nil
 	case "zlib":
+		if s.Level == -1 && dict == nil {
+			return fzlib.NewWriter(dst), nil
+		}
 		w, err := fzlib.NewWriterLevelDict(dst, s.Level, dict)
 		if err != nil {
 			return nil, err
